@@ -25,6 +25,9 @@ func runL1(p *l1Profile) func(r *core.Run) *core.Violation {
 	return func(r *core.Run) *core.Violation {
 		w := newL1World(r, p)
 		nb := p.Blocks[0] + r.Intn(p.Blocks[1]-p.Blocks[0]+1)
+		if r.Tier == "thorough" && r.Chance(1, 4) {
+			nb *= 3 // the thorough tier also goes deeper, not only wider
+		}
 		for i := 0; i < nb; i++ {
 			if v := w.runBlock(); v != nil {
 				return v
